@@ -152,3 +152,113 @@ def _numcpu(X, ins, argv):
 def _str1(X, ins, argv):
     w = X.w
     return [w.uf(ins['static'].replace('.', '_'), w.Str, w.Str)(argv[0])]
+
+
+# ---------------------------------------------------------------------- github.com/fredericlemoine/bitset
+# Abstract model (trusted): a BitSet object r has ghost contents bs_bits[r] : Int -> Bool and bs_len[r].
+BS = 'github.com/fredericlemoine/bitset.BitSet'
+BSP = '(*github.com/fredericlemoine/bitset.BitSet).'
+B = z3.BoolSort()
+
+
+def _bs_keys():
+    return ('ghost', 'bs_bits', z3.ArraySort(I, z3.ArraySort(I, B)), BS), ('ghost', 'bs_len', z3.ArraySort(I, I), BS)
+
+
+def _bs_new(X, bits, length):
+    kb, kl = _bs_keys()
+    r = X.alloc_id(BS)
+    X.heap.set(kb, z3.Store(X.heap.get(kb), r, bits))
+    X.heap.set(kl, z3.Store(X.heap.get(kl), r, length))
+    return r
+
+
+@ext('github.com/fredericlemoine/bitset.New')
+def _bs_New(X, ins, argv):
+    return [_bs_new(X, z3.K(I, z3.BoolVal(False)), argv[0])]
+
+
+@ext(BSP + 'Clone')
+def _bs_Clone(X, ins, argv):
+    kb, kl = _bs_keys()
+    X.nonnil(argv[0], ins.get('pos', ''), 'method call on nil *BitSet')
+    return [_bs_new(X, X.heap.get(kb)[argv[0]], X.heap.get(kl)[argv[0]])]
+
+
+@ext(BSP + 'Set')
+def _bs_Set(X, ins, argv):
+    kb, kl = _bs_keys()
+    b, i = argv[0], argv[1]
+    X.nonnil(b, ins.get('pos', ''), 'method call on nil *BitSet')
+    bits = X.heap.get(kb)
+    ln = X.heap.get(kl)
+    X.heap.set(kb, z3.Store(bits, b, z3.Store(bits[b], i, z3.BoolVal(True))))
+    X.heap.set(kl, z3.Store(ln, b, z3.If(i >= ln[b], i + 1, ln[b])))
+    return [b]
+
+
+@ext(BSP + 'Test')
+def _bs_Test(X, ins, argv):
+    kb, kl = _bs_keys()
+    b, i = argv[0], argv[1]
+    X.nonnil(b, ins.get('pos', ''), 'method call on nil *BitSet')
+    return [z3.And(i < X.heap.get(kl)[b], X.heap.get(kb)[b][i])]
+
+
+@ext(BSP + 'Len')
+def _bs_Len(X, ins, argv):
+    kb, kl = _bs_keys()
+    X.nonnil(argv[0], ins.get('pos', ''), 'method call on nil *BitSet')
+    return [X.heap.get(kl)[argv[0]]]
+
+
+@ext(BSP + 'Count')
+def _bs_Count(X, ins, argv):
+    kb, kl = _bs_keys()
+    X.nonnil(argv[0], ins.get('pos', ''), 'method call on nil *BitSet')
+    f = X.w.uf('bs_card', z3.ArraySort(I, B), I, I)
+    r = f(X.heap.get(kb)[argv[0]], X.heap.get(kl)[argv[0]])
+    X.hyp(z3.And(r >= 0, r <= X.heap.get(kl)[argv[0]]))
+    return [r]
+
+
+@ext(BSP + 'None')
+def _bs_None(X, ins, argv):
+    kb, kl = _bs_keys()
+    X.nonnil(argv[0], ins.get('pos', ''), 'method call on nil *BitSet')
+    f = X.w.uf('bs_card', z3.ArraySort(I, B), I, I)
+    return [f(X.heap.get(kb)[argv[0]], X.heap.get(kl)[argv[0]]) == 0]
+
+
+@ext(BSP + 'ClearAll')
+def _bs_ClearAll(X, ins, argv):
+    kb, kl = _bs_keys()
+    b = argv[0]
+    X.nonnil(b, ins.get('pos', ''), 'method call on nil *BitSet')
+    X.heap.set(kb, z3.Store(X.heap.get(kb), b, z3.K(I, z3.BoolVal(False))))
+    return [b]
+
+
+@ext(BSP + 'EqualOrComplement')
+def _bs_Eqc(X, ins, argv):
+    kb, kl = _bs_keys()
+    b, c = argv[0], argv[1]
+    X.nonnil(b, ins.get('pos', ''), 'method call on nil *BitSet')
+    bits = X.heap.get(kb)
+    ln = X.heap.get(kl)
+    f = X.w.uf('bs_eqc', z3.ArraySort(I, B), I, z3.ArraySort(I, B), I, B)
+    # nil argument: the library returns false
+    return [z3.And(c != 0, f(bits[b], ln[b], bits[c], ln[c]))]
+
+
+@ext(BSP + 'DumpAsBits', BSP + 'String')
+def _bs_Dump(X, ins, argv):
+    X.nonnil(argv[0], ins.get('pos', ''), 'method call on nil *BitSet')
+    return [X.w.fresh('bsdump', X.w.Str)]
+
+
+EXT['ghostspace:' + BS] = _bs_keys
+for _k in (BSP + 'Set', BSP + 'ClearAll'):
+    EXT['mod:' + _k] = lambda V: set(_bs_keys())
+for _k in ('github.com/fredericlemoine/bitset.New', BSP + 'Clone'):
+    EXT['mod:' + _k] = lambda V: set(_bs_keys()) | {('alloc', BS)}
